@@ -379,8 +379,15 @@ def run_stateful_check(prop, tier, seed, work, *, mc_list, groups, key_fn, level
     rc_all, ntr, nev, samples, known_rep = EXIT_OK, 0, 0, [], []
     nviol = 0
     all_traces = []
+    infra_notes = []
     for gi, (tspec, tcfg, jobs) in enumerate(groups):
-        paths = run_drivers(binary, jobs, work)
+        try:
+            paths = run_drivers(binary, jobs, work)
+        except Infra as e:
+            if rc_all == EXIT_VIOLATION:      # a violation has already been reported: it stands; the trouble is noted
+                infra_notes.append(str(e)[:500])
+                continue
+            raise
         trace_path = concat([paths[n] for n, _ in jobs], os.path.join(work, "group%d.ndjson" % gi))
         all_traces.append(trace_path)
         n_init = sum(1 for l in open(trace_path) if '"ev":"init"' in l)
@@ -413,6 +420,8 @@ def run_stateful_check(prop, tier, seed, work, *, mc_list, groups, key_fn, level
                model_checking=mc_info, event_counts=kinds, known_findings_reported=sorted(set(known_rep)), exhaustive=False)
     if extra_cov:
         cov.update(extra_cov)
+    if infra_notes:
+        cov["infrastructure_trouble_after_violation"] = infra_notes
     write_evidence(prop, tier, seed, level, cov, assumptions, time.time() - t0, violations=nviol)
     return rc_all
 
